@@ -120,6 +120,9 @@ func (x *Exec) step(fr *Frame, ins ssa.Instruction) {
 		}
 	case *ssa.IndexAddr:
 		idx := x.toInt(x.get(fr, ins.Index).(*smt.Term), ins.Index.Type())
+		if x.e.FloatTaint && !idx.IsConst() {
+			idx = x.floatTaint(idx) // taint mode: a dirty value used as a table index is a candidate as well
+		}
 		switch xv := x.get(fr, ins.X).(type) {
 		case Pointer: // pointer to array
 			x.nilCheck(xv, "index of nil array pointer")
@@ -769,7 +772,13 @@ func (x *Exec) convert(v Value, from, to types.Type) Value {
 		}
 		if t, ok := v.(*smt.Term); ok {
 			if !t.IsConst() {
-				efail("symbolic integer converted to float")
+				if !x.e.FloatTaint {
+					efail("symbolic integer converted to float")
+				}
+				// taint mode (C11 scratch harnesses): a symbolic (dirty) integer reaching floating-point
+				// cost code is a CANDIDATE for history dependence; record it with a model and continue
+				// with the model's value. Only the native replay can confirm it.
+				t = x.floatTaint(t)
 			}
 			_, sf, _ := lay.intInfo(from)
 			var f float64
@@ -1140,4 +1149,27 @@ func (x *Exec) piecewise(vals []uint64, w int, idx *smt.Term) (*smt.Term, bool) 
 		acc = C.Ite(C.Cmp(smt.OUle, ix, C.BV(cw, uint64(segs[k+1].start))), expr(segs[k]), acc)
 	}
 	return acc, true
+}
+
+func (x *Exec) floatTaint(t *smt.Term) *smt.Term {
+	v, m := x.check(x.e.C.True(), true)
+	if v != smt.Sat {
+		efail("float taint: cannot obtain a model")
+	}
+	val := x.e.C.Eval(t, m, map[int]uint64{})
+	// prefer a non-zero witness if one exists (dirt that is zero is indistinguishable from fresh state)
+	if val == 0 {
+		if v2, m2 := x.check(x.e.C.BNot(x.e.C.Eq(t, x.e.C.BV(t.W, 0))), true); v2 == smt.Sat {
+			m = m2
+			val = x.e.C.Eval(t, m2, map[int]uint64{})
+		}
+	}
+	c := x.e.C.BV(t.W, val)
+	x.addPC(x.e.C.Eq(t, c))
+	if !x.tainted {
+		x.tainted = true
+		x.res.Obligations++
+		x.violation("candidate", "a value left over in pooled scratch state reaches floating-point cost code (possible dependence on call history)", m)
+	}
+	return c
 }
